@@ -38,7 +38,7 @@ def solve(A, b, Delta):
     # Check for the hard case
     if minSig < eps and norm(bv/(sig+lam)) < Delta:
         p = -v@(bv/(sig+lam))
-        z = v[0]
+        z = v[:,0]
         pz = p@z
         pp = p@p
         ddmpp = Delta*Delta-pp
